@@ -5,6 +5,17 @@ ALL = ["C%02d" % i for i in range(1, 21)]
 TB = ("Trusted: Coq 8.16.1 kernel + bytecode VM (vm_compute; no native_compute); the Python harness "
       "(generators, exact float->rational conversion, epgpy drivers); NumPy/CPython. ")
 CLAIMED = {
+ "C20": dict(
+   text="Machine-checked proof (Coq): one guard per documented invalid-input class, composed as the constructors / prepare / _format_states / "
+        "_parse_partials / check compose them (Model/Validate.v); 75 universally quantified theorems reject_<class> (every member: any magnitude, "
+        "any position in an array argument, any batch shape, by induction over lists) and accept_<boundary> (zero duration, zero flip angle, tau=0, "
+        "4-component shifts ...); the exact gaps of the existing guards are stated as theorems (tolerances of allclose, Offset, tau of E/P/D/X not "
+        "guarded unless duration=True).",
+   design_ref="DESIGN.md section 4 C20",
+   note=TB + "The guard model is hand-written and tied to epgpy by a 1668-case malformed/boundary input correspondence comparing raised/not raised and the "
+        "exception class on the real constructors and calls; np.allclose is modelled exactly over the rationals; class membership of generated inputs "
+        "is assigned by the generators. Axioms: none.",
+   technique="Coq proof (universally quantified guard theorems) + malformed-input correspondence"),
  "C02": dict(
    text="Machine-checked proof (Coq) in two halves. (a) Bookkeeping: diff.py's DiffOperator.__call__/_apply_order1/combine_partials/"
         "accumulate are transcribed literally (Model/Diff.v, dictionaries as association lists); for ANY derivation dv of the scalar "
